@@ -30,6 +30,10 @@ type ROp struct {
 	AuthIdx  uint8  `json:"auth_idx,omitempty"`
 	AuthData uint8  `json:"auth_data,omitempty"`
 	N        int    `json:"n,omitempty"`
+	// a second data channel of the same index, carried by writers that are not data-only;
+	// Order permutes the three series of such a writer's frame
+	AuthData2 uint8 `json:"auth_data2,omitempty"`
+	Order     int   `json:"order,omitempty"`
 }
 
 type RScript struct {
@@ -62,18 +66,18 @@ func genRScript(t *rapid.T) RScript {
 		}
 		switch k {
 		case "open":
-			op := ROp{Kind: "open", W: next, DataOnly: rapid.IntRange(0, 2).Draw(t, "data_only") == 0, AuthIdx: auth.Draw(t, "ai"), AuthData: auth.Draw(t, "ad")}
+			op := ROp{Kind: "open", W: next, DataOnly: rapid.IntRange(0, 2).Draw(t, "data_only") == 0, AuthIdx: auth.Draw(t, "ai"), AuthData: auth.Draw(t, "ad"), AuthData2: auth.Draw(t, "ad2")}
 			if rapid.Bool().Draw(t, "same") {
-				op.AuthData = op.AuthIdx
+				op.AuthData, op.AuthData2 = op.AuthIdx, op.AuthIdx
 			}
 			sc.Ops = append(sc.Ops, op)
 			open[next] = w{op.DataOnly}
 			next++
 		case "set":
-			op := ROp{Kind: "set", W: pick(), AuthIdx: auth.Draw(t, "ai"), AuthData: auth.Draw(t, "ad")}
+			op := ROp{Kind: "set", W: pick(), AuthIdx: auth.Draw(t, "ai"), AuthData: auth.Draw(t, "ad"), AuthData2: auth.Draw(t, "ad2")}
 			sc.Ops = append(sc.Ops, op)
 		case "write":
-			sc.Ops = append(sc.Ops, ROp{Kind: "write", W: pick(), N: rapid.IntRange(1, 3).Draw(t, "n")})
+			sc.Ops = append(sc.Ops, ROp{Kind: "write", W: pick(), N: rapid.IntRange(1, 3).Draw(t, "n"), Order: rapid.IntRange(0, 5).Draw(t, "order")})
 		case "close":
 			id := pick()
 			sc.Ops = append(sc.Ops, ROp{Kind: "close", W: id})
@@ -91,17 +95,18 @@ func executeR(sc RScript, rep *kit.Report) error {
 		return kit.Fail("setup", "open: %v", err)
 	}
 	defer db.Close()
-	const idxK, dataK, markK = cesium.ChannelKey(1), cesium.ChannelKey(2), cesium.ChannelKey(3)
+	const idxK, dataK, markK, data2K = cesium.ChannelKey(1), cesium.ChannelKey(2), cesium.ChannelKey(3), cesium.ChannelKey(4)
 	for _, c := range []cesium.Channel{
 		{Key: idxK, Name: "idx", DataType: telem.TimeStampT, IsIndex: true},
 		{Key: dataK, Name: "data", DataType: telem.Int64T, Index: idxK},
 		{Key: markK, Name: "mark", DataType: telem.TimeStampT, IsIndex: true},
+		{Key: data2K, Name: "data2", DataType: telem.Int64T, Index: idxK},
 	} {
 		if cerr := db.CreateChannel(ctx, c); cerr != nil {
 			return kit.Fail("setup", "create: %v", cerr)
 		}
 	}
-	s, serr := db.NewStreamer(ctx, cesium.StreamerConfig{Channels: []cesium.ChannelKey{idxK, dataK, markK}, SendOpenAck: true})
+	s, serr := db.NewStreamer(ctx, cesium.StreamerConfig{Channels: []cesium.ChannelKey{idxK, dataK, data2K, markK}, SendOpenAck: true})
 	if serr != nil {
 		return kit.Fail("setup", "streamer: %v", serr)
 	}
@@ -123,6 +128,7 @@ func executeR(sc RScript, rep *kit.Report) error {
 		w        *cesium.Writer
 		dataOnly bool
 		ai, ad   uint8
+		ad2      uint8
 		pos      int
 	}
 	ws := map[int]*mw{}
@@ -133,23 +139,34 @@ func executeR(sc RScript, rep *kit.Report) error {
 	}()
 	counter := 0
 	yes := true
-	holder := func(data bool) int {
+	// holderOf: the writer in control of channel k (idxK, dataK or data2K); data-only writers
+	// cover dataK alone
+	holderOf := func(k cesium.ChannelKey) int {
 		best := -1
 		var ba uint8
 		bp := 0
 		for id, w := range ws {
-			if !data && w.dataOnly {
+			if w.dataOnly && k != dataK {
 				continue
 			}
 			a := w.ai
-			if data {
+			switch k {
+			case dataK:
 				a = w.ad
+			case data2K:
+				a = w.ad2
 			}
 			if best < 0 || a > ba || (a == ba && w.pos < bp) {
 				best, ba, bp = id, a, w.pos
 			}
 		}
 		return best
+	}
+	holder := func(data bool) int {
+		if data {
+			return holderOf(dataK)
+		}
+		return holderOf(idxK)
 	}
 	ts := int64(1000)
 	expected := map[string]bool{} // "key/ts" that must be relayed
@@ -165,25 +182,25 @@ func executeR(sc RScript, rep *kit.Report) error {
 				cfg.Channels = []cesium.ChannelKey{dataK}
 				cfg.Authorities = []xcontrol.Authority{xcontrol.Authority(op.AuthData)}
 			} else {
-				cfg.Channels = []cesium.ChannelKey{idxK, dataK}
-				cfg.Authorities = []xcontrol.Authority{xcontrol.Authority(op.AuthIdx), xcontrol.Authority(op.AuthData)}
+				cfg.Channels = []cesium.ChannelKey{idxK, dataK, data2K}
+				cfg.Authorities = []xcontrol.Authority{xcontrol.Authority(op.AuthIdx), xcontrol.Authority(op.AuthData), xcontrol.Authority(op.AuthData2)}
 			}
 			w, oerr := db.OpenWriter(ctx, cfg)
 			if oerr != nil {
 				return kit.Fail("open-writer", "%s: %v", where, oerr)
 			}
-			ws[op.W] = &mw{w: w, dataOnly: op.DataOnly, ai: op.AuthIdx, ad: op.AuthData, pos: counter}
+			ws[op.W] = &mw{w: w, dataOnly: op.DataOnly, ai: op.AuthIdx, ad: op.AuthData, ad2: op.AuthData2, pos: counter}
 			counter++
 		case "set":
 			w := ws[op.W]
-			cfg := cesium.WriterConfig{Channels: []cesium.ChannelKey{idxK, dataK}, Authorities: []xcontrol.Authority{xcontrol.Authority(op.AuthIdx), xcontrol.Authority(op.AuthData)}}
+			cfg := cesium.WriterConfig{Channels: []cesium.ChannelKey{idxK, dataK, data2K}, Authorities: []xcontrol.Authority{xcontrol.Authority(op.AuthIdx), xcontrol.Authority(op.AuthData), xcontrol.Authority(op.AuthData2)}}
 			if w.dataOnly {
 				cfg = cesium.WriterConfig{Channels: []cesium.ChannelKey{dataK}, Authorities: []xcontrol.Authority{xcontrol.Authority(op.AuthData)}}
 			}
 			if serr := w.w.SetAuthority(cfg); serr != nil {
 				return kit.Fail("set-authority", "%s: %v", where, serr)
 			}
-			w.ai, w.ad = op.AuthIdx, op.AuthData
+			w.ai, w.ad, w.ad2 = op.AuthIdx, op.AuthData, op.AuthData2
 		case "write":
 			w := ws[op.W]
 			stamps := make([]telem.TimeStamp, op.N)
@@ -193,14 +210,22 @@ func executeR(sc RScript, rep *kit.Report) error {
 				stamps[k] = telem.TimeStamp(ts)
 				vals[k] = ts
 			}
+			vals2 := make([]int64, op.N)
+			for k := range vals2 {
+				vals2[k] = -vals[k] // the second data channel carries the negated values
+			}
 			var fr cesium.Frame
 			if w.dataOnly {
 				fr = telem.UnaryFrame(dataK, telem.NewSeriesV(vals...))
 			} else {
-				fr = telem.MultiFrame([]cesium.ChannelKey{idxK, dataK}, []telem.Series{telem.NewSeriesV(stamps...), telem.NewSeriesV(vals...)})
+				keys := []cesium.ChannelKey{idxK, dataK, data2K}
+				series := []telem.Series{telem.NewSeriesV(stamps...), telem.NewSeriesV(vals...), telem.NewSeriesV(vals2...)}
+				perm := [][3]int{{0, 1, 2}, {0, 2, 1}, {1, 0, 2}, {1, 2, 0}, {2, 0, 1}, {2, 1, 0}}[op.Order%6]
+				fr = telem.MultiFrame([]cesium.ChannelKey{keys[perm[0]], keys[perm[1]], keys[perm[2]]}, []telem.Series{series[perm[0]], series[perm[1]], series[perm[2]]})
 			}
 			holdsIdx := !w.dataOnly && holder(false) == op.W
 			holdsData := holder(true) == op.W
+			holdsData2 := !w.dataOnly && holderOf(data2K) == op.W
 			auth, werr := w.w.Write(fr)
 			if werr != nil {
 				// a data-only writer needs index samples to stamp against; such failures are
@@ -209,9 +234,12 @@ func executeR(sc RScript, rep *kit.Report) error {
 				rep.Add("write-error:"+werr.Error()[:min(90, len(werr.Error()))], 1)
 				return nil
 			}
-			wantAuth := holdsData && (w.dataOnly || holdsIdx)
+			wantAuth := holdsData && (w.dataOnly || (holdsIdx && holdsData2))
 			if auth != wantAuth {
-				return kit.Fail("authorized-flag", "%s: Write reported authorized=%v, model: holds index=%v holds data=%v", where, auth, holdsIdx, holdsData)
+				return kit.Fail("authorized-flag", "%s: Write reported authorized=%v, model: holds index=%v holds data=%v holds data2=%v (frame order %d)", where, auth, holdsIdx, holdsData, holdsData2, op.Order%6)
+			}
+			if !w.dataOnly && holdsIdx && holdsData != holdsData2 {
+				rep.Class("one-data-channel-held-the-other-not")
 			}
 			for k := range stamps {
 				ik, dk := fmt.Sprintf("%d/%d", idxK, int64(stamps[k])), fmt.Sprintf("%d/%d", dataK, vals[k])
@@ -222,6 +250,16 @@ func executeR(sc RScript, rep *kit.Report) error {
 						forbidden[dk] = where
 					}
 					continue
+				}
+				d2k := fmt.Sprintf("%d/%d", data2K, vals2[k])
+				if holdsIdx {
+					if holdsData2 {
+						expected[d2k] = true
+					} else {
+						forbidden[d2k] = where
+					}
+				} else {
+					forbidden[d2k] = where
 				}
 				if holdsIdx {
 					expected[ik] = true
